@@ -19,27 +19,7 @@ def pycheck(name):
     return deco
 
 
-def prune_doc(d):
-    """drop sparse bins / categories / bag keys that hold zero weight (C03's 'up to ... zero weight')"""
-    if isinstance(d, dict):
-        out = {}
-        for k, v in d.items():
-            if k == "bins" and isinstance(v, dict):
-                out[k] = {bk: prune_doc(bv) for bk, bv in v.items() if not _is_empty(bv)}
-            elif k == "values" and isinstance(v, list) and v and isinstance(v[0], dict) and "w" in v[0]:
-                out[k] = [prune_doc(x) for x in v if x["w"] != 0]
-            else:
-                out[k] = prune_doc(v)
-        return out
-    if isinstance(d, list):
-        return [prune_doc(x) for x in d]
-    return d
-
-
-def _is_empty(frag):
-    if isinstance(frag, dict):
-        return frag.get("entries") == 0
-    return frag == 0
+from execs import prune_doc  # noqa: E402,F401
 
 
 def eval_expect(case, py, replies):
